@@ -600,16 +600,11 @@ is_default_constructible(CPPVisibility min_vis) const {
       return false;
     }
 
-    if (instance->_type->is_const()) {
-      // A const member without an initializer can only be default-initialized
-      // if it is of a class type with a user-provided default constructor.
-      CPPStructType *struct_type = instance->_type->remove_cv()->as_struct_type();
-      CPPInstance *member_constructor =
-        (struct_type != nullptr) ? struct_type->get_default_constructor() : nullptr;
-      if (member_constructor == nullptr ||
-          (member_constructor->_storage_class & CPPInstance::SC_defaulted) != 0) {
-        return false;
-      }
+    if (instance->_type->is_const() &&
+        instance->_type->remove_cv()->as_struct_type() == nullptr) {
+      // A const member of non-class type without an initializer cannot be
+      // default-initialized.
+      return false;
     }
 
     if (!instance->_type->is_default_constructible() ||
